@@ -81,6 +81,13 @@ pub fn generate(tier: &str, rng: &mut Prng) -> Vec<Case> {
         ops.push(Case::new(format!("hash_to_point 512 {}", hex(m))));
         ops.push(Case::new(format!("hash_to_point 1024 {}", hex(m))));
     };
+    // strings of 65536 SHAKE blocks and one more or less (a block counter narrower than usize wraps exactly there)
+    for l in [65536usize * 136 - 1, 65536 * 136, 65536 * 136 + 57, 65537 * 136] {
+        let pre = hex(&rng.bytes(40));
+        if thorough || l == 65536 * 136 + 57 {
+            ops.push(Case::new(format!("hash_to_point 512 rep:{l}:{pre}")));
+        }
+    }
     // lengths around the SHAKE-256 rate (136) and its multiples, incl. the empty string
     for l in [0usize, 1, 2, 40, 41, 134, 135, 136, 137, 271, 272, 273, 407, 408, 409, 1000] {
         let m = rng.bytes(l);
